@@ -7,7 +7,7 @@ LEAN_MODULE = "Ucfg.Props.C06"
 LEVEL_TEXT = 'Round-trip theorems per primitive kind (value -> setting -> same value) and the lift to whole structs of primitive fields (flat_struct_roundtrip: NewFrom(struct) followed by Unpack into the zero value returns exactly the struct, for any number of exported untagged fields with distinct simple names, any options without per-field policies: normalisation keeps a sorted dictionary, the merge into the empty config keeps every entry, the field loop finds and converts each); the lift through tags, pointers, containers and nested structs is PARTIAL and decided by the roundtrip correspondence over generated struct types; known finding D24.'
 CORRESPONDENCE = "Normalize.normStructInto + Unpack.unpack ~ ucfg.NewFrom(v) then (*Config).Unpack(&zero)"
 RULE = ("struct types from the type generator restricted to the supported kinds (no interface{}, no arrays as map values) with tags "
-        "(rename, inline struct, ignore, embedded structs, dotted tags reaching into a sibling struct's subtree under PathSep) x values of those types incl. zero values, extreme numbers (MinInt64, MaxUint64, +-Inf, NaN, "
+        "(rename, inline struct, ignore, embedded structs, dotted tags reaching into a sibling struct's subtree under PathSep, dotted tags addressing the elements of one list in any order of declaration) x values of those types incl. zero values, extreme numbers (MinInt64, MaxUint64, +-Inf, NaN, "
         "sized-type boundaries), empty and nil collections, nil and non-nil pointers, durations, regular expressions and strings over "
         "'$', '.', ',', braces, quotes and spaces. Oracle: the unpacked value equals the original (nil = empty collection). "
         "Non-trivial: the value has a non-zero field below the top level. Distinct by (type signature, value classes).")
@@ -151,6 +151,22 @@ def gen(rng, tier):
         ty = TG.T("struct", f=fields)
         yield {"k": "roundtrip", "ty": ty, "val": rt_value(rng, ty), "opts": [opt("PathSep", ".")], "byPtr": rng.chance(0.3), "_tag": "roundtrip/dotted-tags",
                "_nt": True, "_sig": "dotted|%d|%s" % (depth, fields[0]["n"])}
+
+
+    # dotted tags that address the elements of one list, declared in any order (a higher index first pads the lower slots with
+    # nulls, which the later fields fill): the fields read their own elements back
+    irng = rng.fork("index-tags")
+    for _ in range(n // 12):
+        base = irng.pick(["hosts", "srv.ports", "l"])
+        k = 2 + irng.below(3)
+        idxs = irng.shuffle(list(range(k + (1 if irng.chance(0.3) else 0))))[:k]      # sometimes a slot no field addresses
+        et = irng.pick(["string", "int", "uint16", "bool"])
+        fields = [{"n": "E%d" % i, "tag": "%s.%d" % (base, i), "v": "", "ty": TG.T(et)} for i in idxs]
+        if irng.chance(0.4):
+            fields.insert(irng.below(len(fields) + 1), {"n": "Z", "tag": "", "v": "", "ty": TG.rand_prim(irng)})
+        ty = TG.T("struct", f=fields)
+        yield {"k": "roundtrip", "ty": ty, "val": rt_value(irng, ty), "opts": [opt("PathSep", ".")], "byPtr": irng.chance(0.3), "_tag": "roundtrip/index-tags",
+               "_nt": True, "_sig": "indextags|%s|%s|%s" % (base, et, ",".join(map(str, idxs)))}
 
 
 fix_candidate = TG.fix_typed_candidate
